@@ -1923,11 +1923,16 @@ class t2data(object):
         """
         allowed = ['HEAT', 'WATE', 'AIR ', 'MASS', 'DELV']
         convert = {'CO2 ':'COM2'}
-        delgens = []
+        delgens, keepgens = [], []
         for gen in self.generatorlist:
             if gen.type in convert: gen.type = convert[gen.type]
-            elif not ((gen.type in allowed) or gen.type.startswith('COM')):
-                delgens.append((gen.block, gen.name))
+            if (gen.type in allowed) or gen.type.startswith('COM'):
+                keepgens.append(gen)
+            else: delgens.append((gen.block, gen.name))
+        if len(delgens) > 0:
+            self.generatorlist[:] = keepgens
+            self.generator.clear()
+            for gen in keepgens: self.generator[(gen.block, gen.name)] = gen
         if warn and len(delgens) > 0:
             print('The following generators have types not supported' + \
                   ' by TOUGH2 and have been deleted:')
